@@ -30,4 +30,5 @@ var Registry = map[string]func(tier string, args []string) int{
 	"C01": C01,
 	"C02": C02,
 	"C06": C06,
+	"C19": C19,
 }
